@@ -98,6 +98,20 @@ let c06 toks =
             end;
             go tl
         | "X" :: s :: mid :: tl -> step (RtDelete (sess s, zi mid)); go tl
+        | "G" :: _s :: _tok :: tl -> go tl
+        | "O" :: s :: mid :: bytes :: r :: tl ->
+            (* a notification generated inside a prepare call: accepted for sending at the start of
+               the call (no coap_send result to report), then the call's loop and wait *)
+            let si = int_of_string s mod ns in
+            let (st', o) = rt_step !st (RtSend (z_of_int si, zi mid, bytes_of_tok bytes, cfgs.(si), zi r)) in
+            st := st';
+            List.iter (fun x ->
+              match x with
+              | RoSent _ -> ()
+              | _ -> (match show_out x with
+                      | Some t -> outs := (string_of_int !evi ^ "." ^ t) :: !outs
+                      | None -> ())) o;
+            step RtTick; go tl
         | "I" :: tmo :: tl -> step (RtIoProcess (zi tmo)); go tl
         | "Q" :: tl -> step RtDump; go tl
         | _ -> failwith "c06 event" in
